@@ -12,7 +12,8 @@
 //!               wrapping global allocator records the high-water mark and the largest single request during the call.
 //! `c04 info`    sizes used by the check's allocation bound.
 //!
-//! status: ok | err | panic | timeout | abort | overflow | oom | signal | died     (the last five come from the supervisor)
+//! status: ok | err | panic | ub | timeout | abort | overflow | oom | signal | died | skipped   (the last six come from the supervisor;
+//!         ub = a borrowed Cow<[E]> slice that is not aligned for E)
 //!
 //! Case lines (bo = le|be, phase = address of the first byte of the buffer mod 8, hex = bytes or `-`):
 //!   VR <bo> <phase> <offset> <sig> <hex>             validate_raw::validate_marshalled, every complete type of sig in turn
@@ -215,6 +216,28 @@ fn ut<'b, 'f, T: Unmarshal<'b, 'f>>(fds: &'f [UnixFd], bo: ByteOrder, buf: &'b [
     format!("{} {}", res, a)
 }
 
+/// Cow<[E]>: like `ut`, and a borrowed result must be aligned for E (building a misaligned &[E] is undefined behaviour;
+/// the optimised build does not trap on it, so it is checked here: status `ub`)
+fn ut_cow<'b, 'f, E>(fds: &'f [UnixFd], bo: ByteOrder, buf: &'b [u8], offset: usize) -> String
+where
+    E: Unmarshal<'b, 'f> + Clone + 'b,
+{
+    let m = Meter::start();
+    let mut ctx = UnmarshalContext::new(fds, bo, buf, offset);
+    let r = <Cow<'b, [E]> as Unmarshal>::unmarshal(&mut ctx);
+    let used = buf.len() - ctx.remainder().len() - offset;
+    let res = match &r {
+        Ok(Cow::Borrowed(s)) if (s.as_ptr() as usize) % std::mem::align_of::<E>() != 0 => {
+            format!("ub what=misaligned_borrowed_slice used={}", used)
+        }
+        Ok(_) => format!("ok used={}", used),
+        Err(_) => "err".to_string(),
+    };
+    let a = m.stop();
+    drop(r);
+    format!("{} {}", res, a)
+}
+
 fn bp_get<'body, 'fds, T: Unmarshal<'body, 'fds>>(body: &'body MarshalledMessageBody, n: usize) -> String
 where
     'body: 'fds,
@@ -356,6 +379,14 @@ fn eval(line: &str) -> String {
                 return "badoffset".into();
             }
             let fds = mkfds(num(5));
+            match ty {
+                "Cow[u8]" => return ut_cow::<u8>(&fds, bo, buf, offset),
+                "Cow[u16]" => return ut_cow::<u16>(&fds, bo, buf, offset),
+                "Cow[u32]" => return ut_cow::<u32>(&fds, bo, buf, offset),
+                "Cow[u64]" => return ut_cow::<u64>(&fds, bo, buf, offset),
+                "Cow[i64]" => return ut_cow::<i64>(&fds, bo, buf, offset),
+                _ => {}
+            }
             if let Some(r) = extra_types!(ty, ut, &fds, bo, buf, offset) {
                 return r;
             }
